@@ -326,6 +326,25 @@ def contraction(rc):
             rc.ob(f"{name} output {norm(e)}")
         if not ok:
             rc.fail(fi, f, f"{name} must produce X ⟂ Y−{{e}} | " + ("Z" if third == "same" else "Z ∪ {e}") + " for every e in Y", construct=f"{name} shape")
+        # the rule must fire for EVERY assertion whose second event has at least two elements: its path condition is implied by ¬single(event2)
+        from ..guards import A, Not, implies, path_formula, show_formula
+
+        def atomize(e_, arg=arg):
+            t = norm(e_)
+            if t == f"single_var({arg}.event2)" or t in (f"len({arg}.event2) == 1", f"len({arg}.event2) <= 1", f"len({arg}.event2) < 2"):
+                return A("single2")
+            if t in (f"len({arg}.event2) > 1", f"len({arg}.event2) >= 2", f"len({arg}.event2) != 1"):
+                return Not(A("single2"))
+            return None
+
+        for s_ in sites(f, lambda n: isinstance(n, ast.Return) and isinstance(n.value, ast.ListComp)):
+            fm = path_formula(s_, atomize)
+            okg, _, rws = implies(Not(A("single2")), fm, extra_atoms=("single2",))
+            rc.report.rows += rws
+            rc.ob(f"{name} fires under {show_formula(fm)}")
+            if not okg:
+                rc.fail(fi, s_.node, f"{name} must be applied to every assertion whose second event has several variables; here it fires only under `{show_formula(fm)}` — "
+                        "derivable statements are missing from the closure (entails / is_equivalent answer wrongly)", construct=f"{name} guard")
 
     # both sides: decorator applies the rule to all symmetric variants
     dec = _find_inner(fi, "apply_left_and_right")
@@ -379,6 +398,27 @@ def contraction(rc):
     rc.ob("is_equivalent -> entails both ways")
 
 
+@rule("C18.pure", "independence queries on a joint distribution (check_independence, get_independencies, minimal_imap, is_imap, out-of-place marginal/conditional) never edit the distribution", floor=5)
+def pure(rc):
+    from ..effects import analyse
+    from . import shared
+    repo = rc.repo
+    summ = shared.summaries(repo)
+    cls = repo.cls(JPD, "JointProbabilityDistribution")
+    for name in ("check_independence", "get_independencies", "minimal_imap", "is_imap", "marginal_distribution", "conditional_distribution", "to_factor"):
+        f = cls.methods.get(name)
+        if f is None:
+            raise AnalysisError(f"JointProbabilityDistribution.{name} vanished")
+        fold = {"inplace": False} if "inplace" in f.params else None
+        fl = analyse(summ, f, fold=fold)
+        bad = [m for m in fl.mutations if not m.order_only]
+        rc.ob(f"{f.qual}{' [inplace=False]' if fold else ''}: {len(bad)} mutation(s) of self/arguments")
+        for m in bad:
+            what = "the distribution itself" if m.root.startswith("self") else f"the argument `{m.root}`"
+            rc.fail(f, m.node, f"{f.qual} modifies {what}: `{norm(m.node, 70)}` ({m.how}) — later independence queries on the same object answer for another distribution",
+                    construct=f"{name} {m.root}: {norm(m.node, 100)}")
+
+
 @rule("C18.symmetry", "IndependenceAssertion: __eq__ accepts the swap of the first two events iff __hash__ is invariant under it", floor=2)
 def symmetry(rc):
     repo = rc.repo
@@ -412,6 +452,14 @@ def defuse(rc):
     _sh.defuse_rule(rc, _sh.anchor_files("C18"))
 
 MUTANTS = [
+    dict(kind="break", name="check-independence-on-self", file=JPD, expect="C18.pure",
+         old="        JPD = self.copy()\n        if isinstance(event1, str):", new="        JPD = self\n        if isinstance(event1, str):"),
+    dict(kind="break", name="weak-union-only-for-single-left", file=IND, expect="C18.contraction",
+         old="            \"Weak Union rule: 'X ⟂ Y,W | Z' -> 'X ⟂ Y | W,Z', 'X ⟂ W | Y,Z'\"\n            if single_var(ind.event2):",
+         new="            \"Weak Union rule: 'X ⟂ Y,W | Z' -> 'X ⟂ Y | W,Z', 'X ⟂ W | Y,Z'\"\n            if single_var(ind.event2) or not single_var(ind.event1):"),
+    dict(kind="twin", name="decomposition-guard-by-len", file=IND,
+         old="            \"Decomposition rule: 'X ⟂ Y,W | Z' -> 'X ⟂ Y | Z', 'X ⟂ W | Z'\"\n            if single_var(ind.event2):",
+         new="            \"Decomposition rule: 'X ⟂ Y,W | Z' -> 'X ⟂ Y | Z', 'X ⟂ W | Z'\"\n            if len(ind.event2) <= 1:"),
     dict(kind="break", name="immorality-without-collider", file=DAGF, expect="C18.collider",
          old="vstructures.add((frozenset(parents), node))", new="vstructures.add(frozenset(parents))"),
     dict(kind="break", name="iequivalent-compares-immoralities", file=DAGF, expect="C18.collider",
